@@ -11,7 +11,7 @@ PID = "C01"
 BINS = ["x_core"]
 RULE = ("every reference-unit type of the executor universe (catalogue, AmountT, astro [f64], synthetic) x ALL ordered unit pairs "
         "incl. the diagonal (exhaustive) x seeded amounts of the tolerance-safe classes plus, for f64, subnormal amounts and amounts just "
-        "above the smallest normal number (judged with an additional absolute tolerance of two subnormal steps), both back-ends; a cell = "
+        "above the smallest normal number (judged with an additional absolute tolerance of two subnormal steps, scaled for an intermediate rounding in any evaluation order), both back-ends; a cell = "
         "(backend,type,from,to,amount class); non-trivial = source unit != target unit with a non-zero amount")
 
 
@@ -84,7 +84,8 @@ def judge(part, case, resps, ctx):
     tol = orc.conv_tol(b, x, su, sv)
     tiny = case["cls"] in ("subnormal", "min_normal")
     if tiny:
-        tol += SUB
+        # any straightforward evaluation order ((x*su)/sv, (x/sv)*su, x*(su/sv)) may round an intermediate on the subnormal grid
+        tol += SUB * (1 + max(1 / sv, su))
     ratio = orc.check_close(got, want, tol)
     part.ratio(ratio, {"ty": ty, "x": case["x"], "from": uu["dbg"], "to": vu["dbg"], "backend": b})
     if ratio > 1:
@@ -99,7 +100,7 @@ def judge(part, case, resps, ctx):
             viol("unit", "round trip carries unit %s, requested %s" % (back["u"], uu["dbg"]))
         gb = frac_of(back["a"], b)
         if b == "f64" and tiny:
-            tolb = tol * sv / su + abs(x) * orc.F64_REL + SUB
+            tolb = tol * sv / su + abs(x) * orc.F64_REL + SUB * (1 + max(1 / su, sv))
         elif b == "f64":
             tolb = abs(x) * orc.F64_REL * 2
         else:
